@@ -286,7 +286,12 @@ def setup_worker(ctx):
     from vf import m4
     ses = ctx.get_session()
     ses.main_program()
-    m4.install()
+    # every fourth shard runs WITHOUT the M4 wrappers: there only the behavioural oracles decide (families of
+    # assertions that must agree; outcome of a borrowed case under a small buffer vs. the default size).  A monitor
+    # that wraps the program's objects can change which code runs (it did, twice); these shards cannot be affected.
+    ctx.c14_no_m4 = (ctx.shard % 4 == 3)
+    if not ctx.c14_no_m4:
+        m4.install()
     from vf.props import c05 as _c05, c10 as _c10
     for mod in (_c05, _c10):
         if hasattr(mod, 'setup_worker'):
@@ -453,7 +458,9 @@ def run_case(case, ctx):
         dd.update({'m4': True, 'input_text': case['text'], 'akind': case['akind'], 'wrap': case['wrap'],
                    'mem': case['mem']})
         viol.append({'what': 'C14 ' + v['what'], 'detail': dd})
-    if m4.COUNT['comparisons'] == cmp0 and verdicts is not None:
+    if getattr(ctx, 'c14_no_m4', False):
+        ctx.count('c14.cases_without_m4_wrappers')
+    elif m4.COUNT['comparisons'] == cmp0 and verdicts is not None:
         inconc.append('M4 made no comparison in this run')
     m4.reset()
     ses.clean_tmp()
